@@ -183,7 +183,7 @@ def builtin_filtered_by_plain_defs(repo, caller, envs, calls):
     """from_grammar removes plainly defined names from the builtin map before the first use:
     `<builtin>.retain(|name, _| !<plain defs>.contains_key(name))` at top level, before any specialize call."""
     pm = A.parent_map(caller.body)
-    first_use = min((c for c in calls), key=lambda c: (c["l"], c["c"]))
+    first_use = min((c for c in calls), key=A.pos)
     for n in P.find_calls(caller.body, methods={"retain"}):
         if not A.before(n, first_use) or A.guards_of(n, pm):
             continue
